@@ -30,6 +30,14 @@ func main() {
 				}
 			}
 		}, Run: runCfg},
+		// hidden-mode servers built by the real NewHopServer (part of C19's check)
+		"C19hid": {Gen: func(g *GenCtx) {
+			for i := 0; i < 2; i++ {
+				for _, k := range []string{"top", "names", "both"} {
+					g.Op("hid %s", k)
+				}
+			}
+		}, Run: runCfg},
 		"C01cb": {Gen: func(g *GenCtx) {
 			genCallbacks(g, func(m, p, s, c string, listed int, name string) {
 				g.Op("hs %s %s %s %s %d %s", m, p, s, c, listed, name)
